@@ -689,6 +689,14 @@ class SBytesBase:
     __hash__ = None
 
     def __contains__(self, x):
+        if isinstance(x, (bytes, bytearray, SBytesBase)):  # subsequence test, as for bytes
+            xs = list(x.v) if isinstance(x, SBytesBase) else list(x)
+            n, m = len(self.v), len(xs)
+            if m == 0:
+                return True
+            if m > n:
+                return False
+            return bool(s_or(*[s_and(*[self.v[o + j] == xs[j] for j in range(m)]) for o in range(n - m + 1)]))
         return bool(s_or(*[e == x for e in self.v]))
 
     def concrete(self):
@@ -1175,6 +1183,20 @@ class Engine:
             return None
         self.model = self.solver.model()
         return self.model
+
+
+    def coincidence_model(self):
+        """a second model of the current path condition in which all byte-string inputs (names like `addr[3]`) carry one
+        common value, if the path allows it: equal / prefix / substring coincidences that a default model rarely hits"""
+        byte_inputs = [t for k, t in self.inputs.items() if k.endswith("]") and not z3.is_bool(t)]
+        if len(byte_inputs) < 2:
+            return None
+        try:
+            if not self._sat(z3.And(*[t == byte_inputs[0] for t in byte_inputs[1:]])):
+                return None
+        except EngineLimit:
+            return None
+        return self.solver.model()
 
 
 ENGINE = Engine()
